@@ -724,6 +724,45 @@ def splice_fn(em, toks, fn, fc, ctx, marks):
     return dropped
 
 
+def init_post_member(toks, impl_item, sel):
+    """`impl InnerIvInit for X` / `impl InnerInit for X`: the trait (extracted from crypto-common) states the result of
+    the constructor through a spec member `iv_init_post` / `init_post`; here it is DEFINED as the conjunction of the
+    ensures clauses the contract file gives for this impl's constructor (so the two cannot drift apart)."""
+    for trait, fname, post, ivty in (('InnerIvInit', 'inner_iv_init', 'iv_init_post', True), ('InnerInit', 'inner_init', 'init_post', False)):
+        if not sel.anchor.startswith('impl %s for ' % trait):
+            continue
+        fc = sel.fns.get(fname)
+        if fc is None or callable(fc) or not fc.ensures or not fc.ret:
+            return ''
+        m = [x for x in impl_item.members if x.kind == 'fn' and x.name == fname]
+        if not m:
+            return ''
+        m = m[0]
+        # parameter names of the constructor
+        j = m.kw
+        while toks[j].text != '(':
+            j += 1
+        close = match_close(toks, j)
+        names = []
+        depth = 0
+        for q in range(j + 1, close):
+            t = toks[q]
+            if t.kind == 'punct' and t.text in ('(', '[', '<'):
+                depth += 1
+            elif t.kind == 'punct' and t.text in (')', ']', '>'):
+                depth -= 1
+            elif depth == 0 and t.kind == 'ident' and toks[q + 1].text == ':' and toks[q - 1].text in ('(', ',', 'mut'):
+                names.append(t.text)
+        want = 2 if ivty else 1
+        if len(names) != want:
+            raise InfraError('%s: cannot read the parameter names of %s' % (sel.anchor, fname))
+        body = ' && '.join('(%s)' % c.text for c in fc.ensures)
+        if ivty:
+            return '\n    open spec fn %s(%s: Self::Inner, %s: Iv<Self>, %s: Self) -> bool { %s }\n' % (post, names[0], names[1], fc.ret, body)
+        return '\n    open spec fn %s(%s: Self::Inner, %s: Self) -> bool { %s }\n' % (post, names[0], fc.ret, body)
+    return ''
+
+
 def find_closures(toks, lo, hi):
     """closure expressions in toks[lo:hi], pre-order: (index of opening `|`, index of closing `|`, index of the token
     that ends the closure expression).  Only closures in argument position `(|..| body)` / `, |..| body` are found."""
@@ -879,6 +918,7 @@ def gen_mod(mod, sources):
             for q in range(p.lo, p.body[0] + 1):
                 em.tok(toks[q])
             members = sel.members(toks, p) if callable(sel.members) else sel.members
+            members = (members or '') + init_post_member(toks, p, sel)
             if members:
                 em.add('\n' + members.strip('\n') + '\n')
             seen = set()
